@@ -54,13 +54,43 @@ pub fn beta_i(a: f64, b: f64, x: f64) -> f64 {
     if x < (a + 1.0) / (a + b + 2.0) { (bt * betacf(a, b, x) / a).min(1.0) } else { (1.0 - bt * betacf(b, a, 1.0 - x) / b).max(0.0) }
 }
 
+/// Q(a, x) = 1 - P(a, x) for LARGE a by Temme's uniform asymptotic expansion (DLMF 8.12.7-8.12.10, leading coefficient):
+/// Q = erfc(eta sqrt(a/2))/2 + exp(-a eta^2/2)/sqrt(2 pi a) (c0(eta) + O(1/a)), eta^2/2 = mu - ln(1+mu), mu = (x-a)/a, c0 = 1/mu - 1/eta.
+/// The direct evaluation above forms -x + a ln x - lgamma(a) from terms of size a ln a and is useless beyond a ~ 1e10; this one has
+/// no cancellation. Dropped terms are below 1e-3/a^1.5 (used for a >= 1e7 only; cross-checked against gamma_p at a = 1e5, 1e6 in selftest).
+pub fn gamma_q_large(a: f64, x: f64) -> f64 {
+    if !(x > 0.0) { return 1.0; }
+    if x == f64::INFINITY { return 0.0; }
+    let mu = (x - a) / a;
+    let phi = if mu.abs() < 1e-2 { let m = mu; m * m * (0.5 + m * (-1.0 / 3.0 + m * (0.25 + m * (-0.2 + m * (1.0 / 6.0 + m * (-1.0 / 7.0 + m * 0.125)))))) } else { mu - mu.ln_1p() };
+    let eta = (2.0 * phi).sqrt() * if mu < 0.0 { -1.0 } else { 1.0 };
+    let c0 = if eta.abs() < 2e-2 { -1.0 / 3.0 + eta * (1.0 / 12.0 + eta * (-2.0 / 135.0 + eta * (1.0 / 864.0))) } else { 1.0 / mu - 1.0 / eta };
+    let q = 0.5 * erfc(eta * (a / 2.0).sqrt()) + (-a * phi).exp() / (2.0 * std::f64::consts::PI * a).sqrt() * c0;
+    q.clamp(0.0, 1.0)
+}
+/// P(a, x) with the method that is accurate at that a
+pub fn gamma_p_any(a: f64, x: f64) -> f64 { if a >= 1e7 { 1.0 - gamma_q_large(a, x) } else { gamma_p(a, x) } }
+
+/// Binomial CDF for a LARGE variance npq (>= 1e7): normal approximation with continuity correction and the first Edgeworth (skewness)
+/// term, F(k) = Phi(z) - phi(z) (z^2 - 1) (1 - 2p) / (6 sigma), z = (k + 1/2 - np) / sigma; the error is O(1/sigma^2) <= 1e-7.
+/// (beta_i forms lgamma differences of size n ln n and is useless beyond n ~ 1e10; cross-checked against it at n = 1e8 in selftest.)
+pub fn binom_cdf_large(n: u64, p: f64, k: f64) -> f64 {
+    let nf = n as f64; let k = k.floor();
+    if k < 0.0 { return 0.0; } if k >= nf { return 1.0; }
+    let sigma = (nf * p * (1.0 - p)).sqrt();
+    // k - np with np possibly beyond 2^53: k and nf*p are both rounded to the same grid there, the difference is what matters
+    let z = ((k - nf * p) + 0.5) / sigma;
+    let dens = (-0.5 * z * z).exp() / (2.0 * std::f64::consts::PI).sqrt();
+    (norm_cdf(z) - dens * (z * z - 1.0) * (1.0 - 2.0 * p) / (6.0 * sigma)).clamp(0.0, 1.0)
+}
+
 pub fn t_cdf(nu: f64, t: f64) -> f64 {
     if t == 0.0 { return 0.5; }
     let x = nu / (nu + t * t);
     let tail = 0.5 * beta_i(nu / 2.0, 0.5, x);
     if t > 0.0 { 1.0 - tail } else { tail }
 }
-pub fn poisson_cdf(lam: f64, k: f64) -> f64 { if k < 0.0 { 0.0 } else { 1.0 - gamma_p(k.floor() + 1.0, lam) } }
+pub fn poisson_cdf(lam: f64, k: f64) -> f64 { if k < 0.0 { 0.0 } else if k.floor() + 1.0 >= 1e7 || lam >= 1e8 { gamma_q_large(k.floor() + 1.0, lam) } else { 1.0 - gamma_p(k.floor() + 1.0, lam) } }
 
 /// Binomial CDF by the textbook mass recurrence from the nearer end (exact to rounding when the mass at that end does not underflow)
 pub fn binom_cdf_rec(n: u64, p: f64, k: f64) -> f64 {
@@ -84,6 +114,7 @@ pub fn binom_cdf(n: u64, p: f64, k: f64) -> f64 {
     if nf * p <= 60.0 { return binom_cdf_rec(n, p, k); }
     if nf * (1.0 - p) <= 60.0 { // P(X <= k) = P(n - X >= n - k) = 1 - P(Y <= n-k-1), Y ~ B(n, 1-p)
         return (1.0 - binom_cdf_rec(n, 1.0 - p, nf - k.floor() - 1.0)).max(0.0); }
+    if nf * p * (1.0 - p) >= 1e7 { return binom_cdf_large(n, p, k); }
     let k = k.floor();
     beta_i(nf - k, k + 1.0, 1.0 - p)
 }
@@ -135,5 +166,13 @@ pub fn selftest() -> Vec<String> {
             s += (lgamma(nf + 1.0) - lgamma(kf + 1.0) - lgamma(nf - kf + 1.0) + kf * (p as f64).ln() + (nf - kf) * (-(p as f64)).ln_1p()).exp();
             if k % 13 == 0 || k == n { chk(format!("binomial({},{}) k={}", n, p, k), binom_cdf(n, p, kf), s); chk(format!("binomial-betai({},{}) k={}", n, p, k), if k < n { beta_i(nf - kf, kf + 1.0, 1.0 - p) } else { 1.0 }, s); } }
     }
+    // the large-parameter references against the direct ones where both are accurate
+    for &a in &[1e5f64, 1e6] { for &z in &[-5.0, -3.0, -1.0, -0.2, 0.0, 0.3, 1.0, 2.5, 4.5] {
+        let x = a + z * a.sqrt();
+        chk(format!("temme(a={}) z={}", a, z), 1.0 - gamma_q_large(a, x), gamma_p(a, x)); } }
+    for &(n, p) in &[(100_000_000u64, 0.3), (200_000_000, 0.5), (1_000_000_000, 0.97)] { for &z in &[-5.0, -2.0, -0.5, 0.0, 1.0, 3.0] {
+        let nf = n as f64; let k = (nf * p + z * (nf * p * (1.0 - p)).sqrt()).floor();
+        let direct = beta_i(nf - k, k + 1.0, 1.0 - p);
+        if !((binom_cdf_large(n, p, k) - direct).abs() <= 2e-6) { bad.push(format!("binomial-large({},{}) k={}: {:e} vs beta_i {:e}", n, p, k, binom_cdf_large(n, p, k), direct)); } } }
     bad
 }
